@@ -81,6 +81,7 @@ C08_Event(R, i, e) ==
         a == R.sc.grid[k]  b == R.sc.grid[k + 1]
     IN  /\ k >= 1 /\ k <= R.K
         /\ a <= e.t /\ e.t <= b                                   \* inside the bracketing step
+        /\ e.t <= StopT(R)                                        \* ... of the returned solution: not beyond the stop
         /\ \/ (e.at = e.t /\ e.seg = k)                           \* y_e = sol(t_e)
            \/ (e.t = a /\ e.at = a /\ e.seg = k - 1)              \* ... = state at the left end
         /\ NearRoot(R.sc.evs[i], e.t)                             \* g(t_e, y_e) = 0 to root-finder accuracy
